@@ -12,6 +12,10 @@ A *skeleton* is a sequence of slots; slot i is one instruction.  Slot forms (JSO
     ("K", t, u)   packed-switch v0 -> {t, u}          own payload, first_key 0
     ("S", t, u)   sparse-switch v0 -> {t, u}          own payload, keys 10, 20
     ("Ks", j) / ("Ss", j)   a switch that re-uses the payload of switch slot j (C40: shared payload)
+    ("Kx", mode) / ("Sx", mode) / ("Ax", mode)   packed-switch / sparse-switch / fill-array-data whose 31t offset does NOT
+                  address a payload (C40): mode in BOGUS_MODES = mid-self (middle of the instruction itself), mid-payload
+                  (first payload + 4 bytes), mid-payload2 (first payload + 2 bytes), ins (the final return-void, an
+                  ordinary instruction), end (first byte behind the code), beyond (end + 4), negative (2 bytes before 0)
     ("A",)        fill-array-data v0 -> own payload (width 1, 3 elements: odd size, so the payload carries a pad byte)
     ("C",) ("V",) ("N",) ("F",)   const-string / invoke-static / new-instance / sget: the xref-producing plain slots (C40)
 
@@ -46,7 +50,10 @@ from gen import dexgen as G
 CLS = "LT;"
 EXT = "Lext/E;"
 TYPED = ["LE0;", "LE1;"]
-UNITS = {"P": 1, "T": 2, "R": 1, "X": 1, "I": 2, "K": 3, "S": 3, "Ks": 3, "Ss": 3, "A": 3, "C": 2, "V": 3, "N": 2, "F": 2}
+UNITS = {"P": 1, "T": 2, "R": 1, "X": 1, "I": 2, "K": 3, "S": 3, "Ks": 3, "Ss": 3, "A": 3, "C": 2, "V": 3, "N": 2, "F": 2,
+         "Kx": 3, "Sx": 3, "Ax": 3}
+BOGUS = ("Kx", "Sx", "Ax")
+BOGUS_MODES = ("mid-self", "mid-payload", "mid-payload2", "ins", "end", "beyond", "negative")
 SWITCH = ("K", "S", "Ks", "Ss")
 LAYOUTS = ("aligned", "misaligned", "first", "first-mis")
 
@@ -62,8 +69,8 @@ def norm(sk):
     return tuple(tuple(s) for s in sk)
 
 
-def alphabet(N, kinds="PTRXGIKS"):
-    """All slot forms over N target slots, simplest first."""
+def alphabet(N, kinds="PTRXGIKS", bogus=()):
+    """All slot forms over N target slots, simplest first; bogus = subset of BOGUS adds (kind, mode) for every mode."""
     out = []
     for k in kinds:
         if k in "PTRXCVNFA":
@@ -72,6 +79,8 @@ def alphabet(N, kinds="PTRXGIKS"):
             out += [(k, t) for t in range(N)]
         elif k in "KS":
             out += [(k, t, u) for t in range(N) for u in range(t, N)]
+    for k in bogus:
+        out += [(k, m) for m in BOGUS_MODES]
     return out
 
 
@@ -109,6 +118,30 @@ def try_configs(N, max_tries=2, both=True):
                         yield ((i, j) + a, (k, l) + b), False
                         if a == b:
                             yield ((i, j) + a, (k, l) + b), True
+
+
+def try3_configs(N, patterns=("ttt", "tat")):
+    """Tables of THREE disjoint, sorted try ranges over N slots as (tries, share_handler).  patterns: handler kind of
+    try 1, 2, 3 (t typed, a catch-all); handler slots over all N slots each; whenever two of the three handler specs are
+    identical the table is emitted twice: every try with its own encoded_catch_handler, and identical specs sharing ONE
+    (so the sharing patterns (1,2), (2,3), (1,3), all three and none all occur)."""
+    iv = [(i, j) for i in range(N) for j in range(i, N)]
+    for a in iv:
+        for b in iv:
+            if b[0] <= a[1]:
+                continue
+            for c in iv:
+                if c[0] <= b[1]:
+                    continue
+                for pat in patterns:
+                    for h1 in range(N):
+                        for h2 in range(N):
+                            for h3 in range(N):
+                                sp = ((pat[0], h1), (pat[1], h2), (pat[2], h3))
+                                t = (a + sp[0], b + sp[1], c + sp[2])
+                                yield t, False
+                                if len(set(sp)) < 3:
+                                    yield t, True
 
 
 class Built:
@@ -202,6 +235,7 @@ def build(sk, tries=(), layout="aligned", orphan=None, share_handler=False):
         if s[0] in ("K", "S"):
             rel[i] = [slot_off[s[1]] - slot_off[i], slot_off[s[2]] - slot_off[i]]
     valid = set(slot_off)
+    bogus_at = {}                                                         # slot -> encoded absolute BYTE offset (no payload there)
     targets = {}                                                          # slot -> absolute targets (units)
     payload_of = {}                                                       # slot -> payload offset (units)
     for i, s in enumerate(slots):
@@ -219,6 +253,22 @@ def build(sk, tries=(), layout="aligned", orphan=None, share_handler=False):
             payload_of[i] = poff[("slot", j)]
         elif k == "A":
             payload_of[i] = poff[("slot", i)]
+        elif k in BOGUS:
+            mode = s[1]
+            if mode == "mid-self":
+                bogus_at[i] = slot_off[i] * 2 + 2
+            elif mode in ("mid-payload", "mid-payload2"):
+                if not pl:
+                    return None
+                bogus_at[i] = pl[0][1] * 2 + (4 if mode == "mid-payload" else 2)
+            elif mode == "ins":
+                bogus_at[i] = slot_off[N - 1] * 2
+            elif mode == "end":
+                bogus_at[i] = total * 2
+            elif mode == "beyond":
+                bogus_at[i] = total * 2 + 4
+            else:
+                bogus_at[i] = -2
     # ---- emit
     out = bytearray()
     ins = []                                                              # reference instruction list (byte offsets)
@@ -268,6 +318,13 @@ def build(sk, tries=(), layout="aligned", orphan=None, share_handler=False):
         elif k == "A":
             b = _E("fill-array-data", 0, payload_of[i] - slot_off[i])
             kind, tg = "array", ()
+        elif k in BOGUS:
+            name = {"Kx": "packed-switch", "Sx": "sparse-switch", "Ax": "fill-array-data"}[k]
+            b = _E(name, 0, bogus_at[i] // 2 - slot_off[i])
+            kind, tg = ("array" if k == "Ax" else "switch"), ()
+            ins.append((o, len(b), kind, tg, bogus_at[i]))
+            out.extend(b)
+            continue
         else:                                                             # pool-referencing plain slots, patched later
             b = b"\x00\x00" * UNITS[k]
             kind, tg = "plain", ()
